@@ -40,6 +40,16 @@ Proof. exact gen_lineage_init_iterable. Qed.
 Print Assumptions C08_lineage_py_dictionary_keeps_the_given_order.
 Print Assumptions C08_lineage_py_iterable_names_by_position.
 
+Theorem C08_distributions_py_completion_keeps_given_populations : forall d so p,
+  firstn (length d) (Coalescent_completed_lineages d so) = d /\
+  ((exists v, dict_get p d = Some v) -> dict_get p (Coalescent_completed_lineages d so) = dict_get p d) /\
+  (dict_get p d = None -> In p so -> dict_get p (Coalescent_completed_lineages d so) = Some 0%Z) /\
+  fold_right Z.add 0%Z (map snd (Coalescent_completed_lineages d so)) = fold_right Z.add 0%Z (map snd d).
+Proof.
+  intros d so p. split; [apply gen_completion_keeps_given | split; [apply gen_completion_given_counts | split; [apply gen_completion_added_counts | apply gen_completion_total]]].
+Qed.
+Print Assumptions C08_distributions_py_completion_keeps_given_populations.
+
 From mathcomp Require Import all_ssreflect all_algebra fingroup perm.
 From PG Require Import proofs.ExpLaws.
 Set Implicit Arguments. Unset Strict Implicit. Unset Printing Implicit Defensive.
